@@ -229,6 +229,35 @@ func (tw *c20Twin) step(name string, mod string, f func(ctx sdk.Context) (sdk.Co
 		sort.Strings(news)
 		c20Debug("step %d %s: new differing prefixes %v", tw.n, name, news)
 	}
+	if os.Getenv("VERIF_DEBUG") != "" {
+		ao, an := c20AllBalances(tw.a, tw.orig), c20AllBalances(tw.a, tw.reimp)
+		if c20BalDelta(bo, ao) != c20BalDelta(bn, an) {
+			keys := map[string]bool{}
+			for k := range ao {
+				keys[k] = true
+			}
+			for k := range an {
+				keys[k] = true
+			}
+			var ks []string
+			for k := range keys {
+				ks = append(ks, k)
+			}
+			sort.Strings(ks)
+			z := func(m map[string]sdk.Int, k string) sdk.Int {
+				if v, ok := m[k]; ok {
+					return v
+				}
+				return sdk.ZeroInt()
+			}
+			for _, k := range ks {
+				d1, d2 := z(ao, k).Sub(z(bo, k)), z(an, k).Sub(z(bn, k))
+				if !d1.Equal(d2) {
+					c20Debug("step %d %s: balance change of %s: %s on the original chain, %s on the re-imported one", tw.n, name, k, d1, d2)
+				}
+			}
+		}
+	}
 	// the active holes this step may depend on
 	var deps []string
 	for k := range pre {
